@@ -81,6 +81,7 @@ func genPhys(t *rapid.T, root *vt.Node, batches [][]*vt.Val, plain bool) *pqref.
 				cp.EncStats = rapid.Bool().Draw(t, "encStats")
 				cp.KV = rapid.IntRange(0, 3).Draw(t, "colKV") == 0
 				cp.LegacyLabels = rapid.IntRange(0, 3).Draw(t, "legacyLabels") == 0
+				cp.ZeroOffsets = rapid.IntRange(0, 3).Draw(t, "zeroOffsets") == 0
 			}
 			// page splits at record boundaries, independent per column
 			n := len(recs)
@@ -269,6 +270,7 @@ func FuzzC04(f *testing.F) { f.Fuzz(rapid.MakeFuzz(propC04)) }
 func propC04(t *rapid.T) {
 	cfg := foreignCfg{fixtures: fixturesFromEnv(c04Fixtures), maxRecs: envInt("VERIF_MAXRECS", 120), gen: vt.DefaultGen}
 	cfg.gen.LongList = 700
+	cfg.gen.LongStr = 6000 // min/max statistics make page headers larger than 4 KiB
 	{
 		c := &ForeignCase{Fixture: rapid.SampledFrom(cfg.fixtures).Draw(t, "fixture")}
 		f := fx.Get(c.Fixture)
